@@ -152,6 +152,7 @@ fn snapshot(fc: &Option<FileContext>) -> serde_json::Value {
             "finished": fc.did_inform_parser_processing_finished,
             "pending_extract": fc.pending_extract.is_some(),
             "has_parser": fc.parsing_thread.is_some(),
+            "plugins": fc.plugin_states.len(),
             "pipeline": fc.parsing_thread.as_ref().map(|pt| serde_json::json!({
                 "parse_finished": pt.parse_thread.is_finished(),
                 "lc_finished": pt.lc_thread.is_finished(),
